@@ -116,8 +116,7 @@ class LEnv:
                 self.ep.notify_listeners((("10.0.0.7", 7), op[1]), op[2])
         except Exception as e:   # noqa
             return ("raise", type(e).__name__)
-        # the statistics endpoint itself is a listener: not one of the numbered ones
-        return ("ok", [c for c in self.calls])
+        return ("ok", list(self.calls))
 
     def tables(self):
         g = [self.ident(o) for o in self.raw._listeners]
@@ -146,9 +145,6 @@ def run_listener_history(wrapper, ops):
                         bad.append(("listener/called-after-remove/%s" % (wrapper or "plain"),
                                     "listener %d was removed through the endpoint API (%s) and is still called by %s at op %d"
                                     % (c, wrapper or "plain endpoint", k, n)))
-    if wrapper == "stats":
-        # listener 0 is the statistics endpoint's own registration on the wrapped endpoint
-        results = [(r[0], [c for c in r[1]] if r[0] == "ok" else r[1]) for r in results]
     g, pm = env.tables()
     for l, reg in registered.items():
         if reg is False and (l in g or any(l in ls for _, ls in pm)):
